@@ -278,14 +278,14 @@ func init() {
 	Register(&Prop{
 		ID:        "C04",
 		Technique: "bounded exhaustive enumeration of schema models printed to text; the AST is compared node by node and rule by rule with the tree derived from the model that was printed",
-		Rule:      "annotated-model family (<=2 levels, <=2 children, every node kind, ordered selections of <=2 (thorough 3) rules from per-kind pools incl. 19/20-digit integers, nested or/enum/allOf lists, notes, key shortcuts) x annotation placement {//, /* */, /* */ broken over lines}; compared: JSON kind, key, shortcut flag, decoded value / reference text, trimmed note, rule names in order, every rule's kind/value/items/properties, children in order, nothing else; non-trivial = accepted models",
+		Rule:      "annotated-model family (<=2 levels, <=2 children, every node kind, ordered selections of <=3 (thorough 5 at the root, 3 below) rules from per-kind pools incl. 19/20-digit integers, nested or/enum/allOf lists, notes, key shortcuts) x annotation placement {//, /* */, /* */ broken over lines}; compared: JSON kind, key, shortcut flag, decoded value / reference text, trimmed note, rule names in order, every rule's kind/value/items/properties, children in order, nothing else; non-trivial = accepted models",
 		Bounds: func(tier string) map[string]any {
-			return map[string]any{"family_level": map[string]int{"quick": 3, "thorough": 4}[tier], "placements": 3}
+			return map[string]any{"family_level": map[string]int{"quick": 3, "thorough": 5}[tier], "placements": 3}
 		},
 		Run: func(w *core.W) {
 			level := 3
 			if w.Thorough() {
-				level = 4
+				level = 5
 			}
 			var i int64
 			gen.AnnotatedFamily(level, func(m *gen.Model) {
